@@ -70,3 +70,46 @@ class PackedDeltasRoundTrip(Contract):
 
     ensures = [prop("decode-of-encode-is-identity-and-consumes-all-bytes", lambda a, old, r: (
         len(r[1][0]) == len(a.deltas) and r[1][1] == len(r[0]) and And(*[eq(x, y) for x, y in zip(r[1][0], a.deltas)])))]
+
+
+@contract
+class PackedDeltaRunsRoundTrip(Contract):
+    """TupleVariation.compileDeltaValues_ then decompileDeltas_ over the run structure the
+    symbolic contract above cannot reach: EVERY sequence of one to four values from the twelve
+    values at the byte / word / long boundaries (0, +-1, 127, 128, -128, -129, 32767, 32768,
+    -32768, -32769, 70000), and every two-valued sequence a*na + b*nb (+ a*na) with run lengths
+    at the 64-value run limit (1, 2, 63, 64, 65, 127, 128, 129): the decoder gives back exactly
+    the values and consumes exactly the bytes written."""
+    module = "fontTools.ttLib.tables.TupleVariation"
+    qualname = "TupleVariation.decompileDeltas_"
+    props = ("C15", "C02")
+    shadow_mode = "real"
+    level = "PF"
+    assumptions = ("token-valued: 34140 delta sequences",)
+
+    def args(self, S, variant):
+        return {}
+
+    def call(self, f, a):
+        import itertools
+        from fontTools.ttLib.tables.TupleVariation import TupleVariation as TV
+        alpha = [0, 1, -1, 127, 128, -128, -129, 32767, 32768, -32768, -32769, 70000]
+        bad, n = [], 0
+
+        def check(vals):
+            data = TV.compileDeltaValues_(vals)
+            got, pos = f(len(vals), bytes(data), 0)
+            if list(got) != list(vals) or pos != len(data):
+                bad.append((vals[:6], len(vals), list(got)[:6], pos, len(data)))
+            return 1
+        for L in range(1, 5):
+            for vals in itertools.product(alpha, repeat=L):
+                n += check(list(vals))
+        for x, y in itertools.product(alpha, repeat=2):
+            for na in (1, 2, 63, 64, 65, 127, 128, 129):
+                for nb in (1, 2, 63, 64, 65):
+                    n += check([x] * na + [y] * nb)
+                    n += check([x] * na + [y] * nb + [x] * na)
+        return n, bad[:5]
+
+    ensures = [prop("decode-of-encode-at-run-and-width-boundaries", lambda a, old, r: r[0] == 34140 and not r[1])]
